@@ -347,7 +347,7 @@ def main() -> int:
         rule="case = (argument set, which entries are symbolic); state = feasible path over presence bits, settings and the order relations between 3 sizes and the limit; obligations: absolute, sorted, unique, "
         "equal to the reference computed from the tree specification, invariant under argument reversal; listing order reversed under a solver-chosen bit",
         functions_encoded=["file_resolver.resolver.FileResolver.resolve/_walk_directory/_is_dir_excluded/_expand_glob/_should_include_explicit/_exceeds_max_size", "file_resolver.gitignore.load_tool_ignore"],
-        bounds="13-entry skeleton (files, nested dirs, default/user excluded dirs, ignore file, links to file inside / in excluded dir / outside, link to dir); sizes 0..4000 and the limit >=0 symbolic; 11 argument sets",
+        bounds="13-entry skeleton (files, nested dirs, default/user excluded dirs, ignore file, links to file inside / in excluded dir / outside, link to dir); sizes 0..4000 and the limit >=0 symbolic; 12 argument sets (incl. a directory argument below a directory pruned by an earlier argument's walk)",
         stubs=["Path.stat returns the symbolic size for the three sized files (symbolic mode only)", "resolver.os.walk wrapped to reverse listing order under a symbolic bit"],
         sources=C.source_hashes(["src/flowmark/file_resolver/resolver.py", "src/flowmark/file_resolver/gitignore.py", "src/flowmark/file_resolver/defaults.py", "src/flowmark/file_resolver/types.py"]),
     )
